@@ -141,6 +141,49 @@ var c16Templates = [][2]string{
 
 const c16SlotLen = 4
 
+// Inputs that quote the parsers underneath: the texts of the errors net/url and net produce (a URI pasted from a log
+// line, an error message typed where a URI belongs). A parser that classifies an error by its text finds its keyword
+// in the input it echoes.
+var c16ErrorTexts = []string{
+	"first path segment in URL cannot contain colon", "missing protocol scheme", "invalid port", "invalid URL escape",
+	"invalid character in host name", "invalid userinfo", "invalid control character in URL", "missing ']' in address",
+	"too many colons in address", "missing port in address", "unexpected '[' in address", "unexpected ']' in address",
+	"invalid host", "empty url", "no such host", "unknown port",
+}
+
+func c16Quoting() []string {
+	var out []string
+	for _, e := range c16ErrorTexts {
+		for _, p := range []string{"", "stun:", "turn:", "1.2.3.4:80 ", "parse \"1.2.3.4:3478\": "} {
+			for _, suf := range []string{"", "\n", ":3478", "?transport=udp"} {
+				out = append(out, p+e+suf)
+			}
+		}
+	}
+	return out
+}
+
+// Pair repeats: a letter and a symbol, n times (n labels, n ports, n brackets, n escapes): what a parser does once per
+// delimiter it does n times, and if it does it by calling itself its stack is n frames deep. Generated on demand (the
+// longest are 2 MB).
+var c16PairNs = []int{1000, 100000, 1000000}
+
+func c16PairCount() int64 { return int64(2 * len(c16Sigma) * len(c16PairNs) * 2) }
+
+func c16PairItem(j int64) string {
+	n := c16PairNs[j%int64(len(c16PairNs))]
+	j /= int64(len(c16PairNs))
+	sym := c16Sigma[j%int64(len(c16Sigma))]
+	j /= int64(len(c16Sigma))
+	order := j % 2
+	prefix := []string{"stun:", "turns:"}[j/2%2]
+	unit := "a" + sym
+	if order == 1 {
+		unit = sym + "a"
+	}
+	return prefix + strings.Repeat(unit, n)
+}
+
 // Medium lengths: between what the symbol enumeration reaches (7) and the 30000-100000 of the long family lie the
 // sizes at which implementations switch paths (stack scratch, pooled buffers, previews cut to n characters). One
 // symbol - one to four bytes long - repeated n times, n from a ladder around the powers of two, in six positions.
@@ -270,6 +313,15 @@ func c16Item(i int64, maxLen int) string {
 		return c16V6()[j]
 	}
 	j -= int64(len(c16V6()))
+	if q := c16Quoting(); j < int64(len(q)) {
+		return q[j]
+	} else {
+		j -= int64(len(q))
+	}
+	if j < c16PairCount() {
+		return c16PairItem(j)
+	}
+	j -= c16PairCount()
 	// the medium family twice: in a process that has done nothing else with the library, and (second copy) after
 	// the process has used every other part of it (see c16AfterActivityFrom)
 	return c16Medium()[j%int64(len(c16Medium()))]
@@ -283,7 +335,7 @@ func c16AfterActivityFrom(maxLen int) int64 {
 }
 
 func c16Total(maxLen int) int64 {
-	return c16Count(maxLen)*int64(len(c16Prefixes)) + int64(len(c16Long())) + 2*int64(len(c16Literals)) + c16SlotCount() + int64(len(c16V6())) + 2*int64(len(c16Medium()))
+	return c16Count(maxLen)*int64(len(c16Prefixes)) + int64(len(c16Long())) + 2*int64(len(c16Literals)) + c16SlotCount() + int64(len(c16V6())) + int64(len(c16Quoting())) + c16PairCount() + 2*int64(len(c16Medium()))
 }
 
 // uriInvariants checks what C16/C17 demand of any single ParseURI result.
